@@ -118,6 +118,8 @@ TKMinMax == IsOp("kminmax") /\ KMinMax(ev.src, ev.k, ev.which) /\ Match(out')
 
 TItNew == IsOp("itnew") /\ ItNew(ev.it, ev.kind, ev.x, ev.y, ev.w) /\ Match(out')
 TItNext == IsOp("itnext") /\ ItNext(ev.it) /\ Match(out')
+TItMix == IsOp("itmix") /\ ItMix(ev.kind, ev.x, ev.w, ev.adv, ev.consumer) /\ Match(out')
+TToIntTake == IsOp("tointtake") /\ ToIntTake(ev.r) /\ Match(out')
 TItRun == IsOp("itrun") /\ ItRun(ev.kind, ev.x, ev.y, ev.w) /\ Match(out')
 
 TConvert == IsOp("convert") /\ Convert(ev.src, ev.to) /\ Match(out')
@@ -199,7 +201,7 @@ TraceNext ==
     \/ TInPlace \/ TCopying \/ TBitOp \/ TContains
     \/ TStr \/ TObs \/ TEq \/ THash \/ TMapGet \/ TCmp \/ TToInt \/ TIntoRaw
     \/ TKFrom \/ TKParse \/ TKFromInt \/ TKOp \/ TKObs \/ TKSerde \/ TKToSeq \/ TKmers \/ TKMinMax
-    \/ TItNew \/ TItNext \/ TItRun
+    \/ TItNew \/ TItNext \/ TItRun \/ TItMix \/ TToIntTake
     \/ TConvert \/ TTextBase
     \/ TToAmino \/ TTryToAmino \/ TTryToCodon \/ TTableNew \/ TTableAmino \/ TTableCodon
     \/ TCell \/ TCodecInfo
